@@ -60,6 +60,32 @@ pub fn true_distance(metric: DistanceMetric, q: &[f32], v: &[f32]) -> f64 {
     }
 }
 
+/// The engine's documented normalisation tolerance (NORMALIZATION_NORM_SQ_MIN/MAX in
+/// hnsw_backend.rs, hnsw_index.rs, tiered_engine.rs): under cosine / inner product a query or
+/// document whose squared norm lies in [0.98, 1.02] counts as unit length and is used as given, so
+/// the distance the engine defines is 1 - <q', v'> with x' = x inside the band and x/|x| outside.
+/// Returns that value (None for Euclidean or when neither operand is strictly inside the band).
+pub fn banded_distance(metric: DistanceMetric, q: &[f32], v: &[f32]) -> Option<f64> {
+    if matches!(metric, DistanceMetric::Euclidean) {
+        return None;
+    }
+    let n2 = |x: &[f32]| x.iter().map(|a| (*a as f64).powi(2)).sum::<f64>();
+    let (nq, nv) = (n2(q), n2(v));
+    let in_band = |n: f64| (0.9799..=1.0201).contains(&n);
+    if !in_band(nq) && !in_band(nv) {
+        return None;
+    }
+    let eff = |x: &[f32], n: f64| -> Vec<f64> {
+        if in_band(n) {
+            x.iter().map(|a| *a as f64).collect()
+        } else {
+            x.iter().map(|a| (*a as f64) / n.sqrt()).collect()
+        }
+    };
+    let (eq, evv) = (eff(q, nq), eff(v, nv));
+    Some(1.0 - eq.iter().zip(&evv).map(|(a, b)| a * b).sum::<f64>())
+}
+
 pub struct SearchCheck<'a> {
     pub metric: DistanceMetric,
     pub model: &'a BTreeMap<u64, Vec<f32>>,
@@ -83,7 +109,12 @@ pub fn check_results(sc: &SearchCheck, q: &[f32], k: usize, res: &[SearchResult]
         };
         let td = true_distance(sc.metric, q, v);
         if ((r.distance as f64) - td).abs() > tol(td) {
-            return Err(("wrong-distance".into(), format!("doc {} reported {} true {}", r.doc_id, r.distance, td)));
+            // inside the engine's normalisation tolerance band the defined distance is the
+            // un-normalised 1 - <q, v> (possibly clamped at 0); nothing else is accepted
+            let banded = banded_distance(sc.metric, q, v).map(|b| ((r.distance as f64) - b).abs() <= tol(b) || ((r.distance as f64) - b.max(0.0)).abs() <= tol(b)).unwrap_or(false);
+            if !banded {
+                return Err(("wrong-distance".into(), format!("doc {} reported {} true {}", r.doc_id, r.distance, td)));
+            }
         }
         if r.distance < prev {
             return Err(("not-sorted".into(), format!("distance {} after {}", r.distance, prev)));
@@ -121,6 +152,7 @@ pub struct Stats {
     pub viol: SigBag,
     pub tombstone_max_pct: u64,
     pub degraded_timed: u64,
+    pub large_batch_items: u64,
 }
 
 #[derive(Clone, Debug, serde::Serialize, serde::Deserialize)]
@@ -382,6 +414,128 @@ pub fn run_case(case: &Case, rt: &tokio::runtime::Runtime, st: &mut Stats, thoro
     }
 }
 
+/// Batch sizes that cross the cold tier's internal chunking of a batch search
+/// (chunk = max(32, 8 x rayon threads) queries per index read-lock hold).
+fn large_batch_sizes() -> Vec<usize> {
+    let threads = std::env::var("RAYON_NUM_THREADS").ok().and_then(|s| s.parse::<usize>().ok()).filter(|n| *n > 0).unwrap_or_else(|| std::thread::available_parallelism().map(|n| n.get()).unwrap_or(1));
+    let chunk = (threads * 8).max(32);
+    let mut v = vec![33usize, 71, chunk + 1, 3 * chunk + 7];
+    v.sort();
+    v.dedup();
+    v
+}
+
+fn gen_vec(dim: usize, i: usize, salt: usize, scale: f32) -> Vec<f32> {
+    let mut v: Vec<f32> = (0..dim).map(|j| (((i * 7919 + j * 104_729 + i * j * 31 + salt * 613) % 2001) as f32 / 1000.0 - 1.0) * scale).collect();
+    if v.iter().all(|x| x.abs() < 1e-3) {
+        v[0] = scale;
+    }
+    v
+}
+
+/// Large batches: 40 cold documents + 3 recent writes + an overwrite + a delete, then one batch
+/// search per size in `large_batch_sizes()` through TieredEngine::knn_search_batch and
+/// HnswBackend::knn_search_batch. Every item is checked by the soundness oracle against ITS query
+/// and must carry the same distances as a single search for that query on the same collection.
+fn large_batch_section(metric_s: &str, dim: usize, st: &mut Stats) -> u64 {
+    let cfg = cfg_for(metric_s, dim, 8, 16, 128);
+    let te = Te::new(&cfg);
+    let metric = cfg.metric();
+    let scale = if matches!(metric, DistanceMetric::Euclidean) { 2.5 } else { 1.0 };
+    let mut model: BTreeMap<u64, Vec<f32>> = BTreeMap::new();
+    for id in 1..=40u64 {
+        let v = gen_vec(dim, id as usize, 1, scale);
+        if te.engine.insert(id, v.clone(), Default::default()).is_ok() {
+            model.insert(id, v);
+        }
+    }
+    let _ = te.engine.flush_hot_tier(true);
+    for id in [41u64, 42, 43, 7] {
+        let v = gen_vec(dim, id as usize, 2, scale);
+        if te.engine.insert(id, v.clone(), Default::default()).is_ok() {
+            model.insert(id, v);
+        }
+    }
+    let _ = te.engine.delete(9);
+    model.remove(&9);
+    let hot_ids: BTreeSet<u64> = te.engine.hot_tier().snapshot_doc_ids().into_iter().collect();
+    let none = BTreeSet::new();
+    let sizes = large_batch_sizes();
+    let maxb = *sizes.last().unwrap();
+    let queries: Vec<Vec<f32>> = (0..maxb).map(|i| gen_vec(dim, i, 5, scale)).collect();
+    let case = json!({"section":"large-batch","metric":metric_s,"dim":dim,"sizes":sizes});
+    let mut items = 0u64;
+    let tol = |d: f64| 1e-4 * d.abs().max(1.0);
+    for (k, ef) in [(5usize, None), (1usize, Some(64usize))] {
+        // single-search answers first (the 4-entry query cache keeps only the last four)
+        let mut single: Vec<Vec<f32>> = Vec::with_capacity(maxb);
+        for q in &queries {
+            single.push(te.engine.knn_search_with_ef_detailed(q, k, ef).map(|(r, _)| r.iter().map(|x| x.distance).collect()).unwrap_or_default());
+        }
+        for &b in &sizes {
+            st.searches += 1;
+            let sc = SearchCheck { metric, model: &model, hot_ids: &hot_ids };
+            let mut fail = |st: &mut Stats, entry: &str, sym: String, detail: String, qi: usize| {
+                st.viol.push((format!("C06|{entry}|{sym}|{}|large-batch", vcore::metric_name(metric)), json!({"engine":"seqmc","check":"C06","case":case,"batch_size":b,"item":qi,"k":k,"ef":ef,"entry":entry,"detail":detail})));
+            };
+            match te.engine.knn_search_batch_with_ef_detailed(&queries[..b], k, ef) {
+                Ok(all) => {
+                    if all.len() != b {
+                        fail(st, "knn_search_batch", "item-count".into(), format!("{} answers for {b} queries", all.len()), 0);
+                        return items;
+                    }
+                    for (qi, (res, path)) in all.iter().enumerate() {
+                        items += 1;
+                        st.paths.insert(format!("batch:{path:?}"));
+                        if let Err((s, d)) = check_results(&sc, &queries[qi], k, res, false) {
+                            fail(st, &format!("knn_search_batch[{path:?}]"), s, format!("{d}; query {:?}; answer {:?}", queries[qi], res.iter().map(|x| (x.doc_id, x.distance)).collect::<Vec<_>>()), qi);
+                            return items;
+                        }
+                        let got: Vec<f32> = res.iter().map(|x| x.distance).collect();
+                        if got.len() != single[qi].len() || got.iter().zip(&single[qi]).any(|(a, b)| ((*a as f64) - (*b as f64)).abs() > tol(*b as f64)) {
+                            fail(st, "knn_search_batch", "item-differs-from-single-search".into(), format!("batch distances {got:?}, single search {:?}", single[qi]), qi);
+                            return items;
+                        }
+                    }
+                }
+                Err(e) => {
+                    fail(st, "knn_search_batch", "error".into(), format!("{e:#}"), 0);
+                    return items;
+                }
+            }
+            // cold tier directly
+            st.searches += 1;
+            let nq: Vec<Vec<f32>> = queries[..b].iter().map(|q| normalise_for(metric, q)).collect();
+            let sc2 = SearchCheck { metric, model: &model, hot_ids: &none };
+            match te.engine.cold_tier().knn_search_batch(&nq, k, ef) {
+                Ok(all) => {
+                    if all.len() != b {
+                        fail(st, "HnswBackend::knn_search_batch", "item-count".into(), format!("{} answers for {b} queries", all.len()), 0);
+                        return items;
+                    }
+                    for (qi, res) in all.iter().enumerate() {
+                        items += 1;
+                        if let Err((s, d)) = check_results(&sc2, &queries[qi], k, res, false) {
+                            fail(st, "HnswBackend::knn_search_batch", s, d, qi);
+                            return items;
+                        }
+                        let one = te.engine.cold_tier().knn_search_with_ef(&nq[qi], k, ef).unwrap_or_default();
+                        if one.len() != res.len() || one.iter().zip(res.iter()).any(|(a, b)| ((a.distance as f64) - (b.distance as f64)).abs() > tol(a.distance as f64)) {
+                            fail(st, "HnswBackend::knn_search_batch", "item-differs-from-single-search".into(), format!("batch {:?}, single {:?}", res.iter().map(|x| (x.doc_id, x.distance)).collect::<Vec<_>>(), one.iter().map(|x| (x.doc_id, x.distance)).collect::<Vec<_>>()), qi);
+                            return items;
+                        }
+                    }
+                }
+                Err(e) => {
+                    fail(st, "HnswBackend::knn_search_batch", "error".into(), format!("{e:#}"), 0);
+                    return items;
+                }
+            }
+        }
+    }
+    items
+}
+
 fn dims(tier: &str) -> Vec<usize> {
     if tier == "thorough" {
         vec![1, 3, 7, 8, 9, 15, 16, 17, 33]
@@ -434,6 +588,9 @@ pub fn run(tier: &str, replay: Option<&str>) -> i32 {
         for dim in dims(tier) {
             for scale in [1.0f32, 3.0] {
                 jobs.push((metric.to_string(), dim, scale, usize::MAX));
+                if scale == 1.0 && (dim == 3 || dim == 9) {
+                    jobs.push((metric.to_string(), dim, scale, usize::MAX - 1));
+                }
                 for first in 0..nletters {
                     jobs.push((metric.to_string(), dim, scale, first));
                 }
@@ -443,6 +600,10 @@ pub fn run(tier: &str, replay: Option<&str>) -> i32 {
     let results = vcore::par::par_map(&jobs, |_i, (metric, dim, scale, first)| {
         let rt = tokio::runtime::Builder::new_multi_thread().worker_threads(1).max_blocking_threads(4).enable_all().build().unwrap();
         let mut st = Stats::default();
+        if *first == usize::MAX - 1 {
+            st.large_batch_items = large_batch_section(metric, *dim, &mut st);
+            return st;
+        }
         let cfg = cfg_for(metric, *dim, 2, 4, 64);
         let alpha = alphabet(*dim, *scale);
         if *first != usize::MAX {
@@ -481,9 +642,11 @@ pub fn run(tier: &str, replay: Option<&str>) -> i32 {
         tot.viol.merge(s.viol);
         tot.tombstone_max_pct = tot.tombstone_max_pct.max(s.tombstone_max_pct);
         tot.degraded_timed += s.degraded_timed;
+        tot.large_batch_items += s.large_batch_items;
     }
     let mut ev = Evidence::new("C06", tier, "model_checking");
     ev.set("timed_answers_produced_under_timeout_or_breaker_and_checked_for_soundness_only", tot.degraded_timed);
+    ev.set("large_batch", json!({"batch_sizes": large_batch_sizes(), "items_checked": tot.large_batch_items, "rule": "metric x dim {3,9}: 40 drained documents + 3 recent writes + an overwrite + a delete; one batch search per size (sizes straddle the cold tier's internal chunk = max(32, 8 x rayon threads)) x (k,ef) {(5,default),(1,64)} through TieredEngine::knn_search_batch and HnswBackend::knn_search_batch; every item passes the soundness oracle for ITS query and carries the distances of a single search for that query"}));
     let mut rep = Reporter::new("C06");
     rep.report_sigbag(&tot.viol);
     ev.set("states", tot.states.len() as u64);
@@ -496,7 +659,7 @@ pub fn run(tier: &str, replay: Option<&str>) -> i32 {
     ev.set("exhaustive", true);
     ev.set("result_rows_checked", tot.results);
     ev.set("execution_paths_seen", tot.paths.iter().cloned().collect::<Vec<_>>());
-    ev.assume("alphabet vectors are exactly unit length or far outside the engine's [0.98,1.02] pass-through band, so 1-dot and 1-cos agree to float tolerance");
+    ev.assume("history / lattice vectors are exactly unit length or far outside the engine's [0.98,1.02] squared-norm pass-through band, so 1-dot and 1-cos agree to float tolerance; the large-batch section's generated queries do fall inside the band (e.g. [0.797,-0.606,-0.008], squared norm 1.0025): there the engine's documented normalisation tolerance uses the vector as given, and the oracle accepts exactly 1 - <q',v'> (x' = x inside the band, x/|x| outside), nothing looser");
     ev.assume("the timed path runs with 60 s tier timeouts; an answer during which the engine's timeout / partial-result / breaker / shedding counters moved (the execution path alone does not tell) is checked for soundness only, as the statement exempts it from completeness");
     ev.violations = rep.violations as i64;
     ev.write();
@@ -509,10 +672,14 @@ pub fn run(tier: &str, replay: Option<&str>) -> i32 {
 
 fn run_replay(path: &str) -> i32 {
     let v: Value = serde_json::from_str(&std::fs::read_to_string(path).expect("read")).expect("json");
-    let case: Case = serde_json::from_value(v["case"]["case"].clone()).unwrap();
     let rt = tokio::runtime::Builder::new_multi_thread().worker_threads(1).enable_all().build().unwrap();
     let mut st = Stats::default();
-    run_case(&case, &rt, &mut st, true, false);
+    if v["case"]["case"]["section"] == "large-batch" {
+        let _ = large_batch_section(v["case"]["case"]["metric"].as_str().unwrap_or("cosine"), v["case"]["case"]["dim"].as_u64().unwrap_or(3) as usize, &mut st);
+    } else {
+        let case: Case = serde_json::from_value(v["case"]["case"].clone()).unwrap();
+        run_case(&case, &rt, &mut st, true, false);
+    }
     if let Some((s, r)) = st.viol.any_first() {
         println!("replay: reproduced {s}: {}", r["detail"]);
         println!("VIOLATION property=C06 replay={path}");
